@@ -297,6 +297,23 @@ def programs(tier, seed):
         q["entry"] = main
         q["name"] = "chain-depth-%d" % depth
         ps.append(q)
+    # three kept levels, the middle (or every) function kept through a module-level alias of its own module (step = fm)
+    for which in ("middle", "all"):
+        q = gen.new_program("g%d" % k)
+        k += 1
+        m = gen.add_module(q, "gm")
+        fu = gen.add_fn(q, m, "fu", const=1)
+        fm = gen.add_fn(q, m, "fm", const=2)
+        q["fns"][fm]["stmts"] = [gen.s_keep("/al/u", fu, [])]
+        fv = gen.add_fn(q, m, "fv", const=3)
+        q["fns"][fv]["stmts"] = [gen.s_keep("/al/m", fm, [])]
+        main = gen.add_fn(q, m, "gmain", const=9)
+        q["fns"][main]["stmts"] = [gen.s_keep("/al/v", fv, [])]
+        for f_ in ((fm,) if which == "middle" else (fu, fm, fv)):
+            q["fns"][f_]["alias"] = True
+        q["entry"] = main
+        q["name"] = "kept-through-same-module-alias/%s" % which
+        ps.append(q)
     # the same function kept under two paths
     q = gen.new_program("g%d" % k)
     k += 1
